@@ -210,7 +210,7 @@ def r07_1(ctx, repo):
                 layouts['default names'] = (names.axes[0].nest, fn)
         # compare
         for what, (nest, f) in layouts.items():
-            construct = '%s (%s)' % (cls, what)
+            construct = '%s.%s (%s)' % (cls, f.name, what)
             where = repo.loc(f, cls, f.name)
             if nest_eq(nest, want):
                 ctx.ok(rule, where, construct,
